@@ -153,7 +153,8 @@ var Tags = []uint32{0x420001, 0x42FFFF, 0x540001, 0x000001, 0xFFFFFF}
 func st(tag uint32, kids ...*N) *N { return &N{Tag: tag, Type: refttlv.TStructure, Kids: kids} }
 
 // Trees enumerates generic TTLV trees: every leaf under every tag; every leaf at first/middle/last
-// position of a structure; nesting to depth 3; all ordered pairs (and, thorough, triples) of representatives.
+// position of a structure; nesting to depth 3; all ordered pairs (and, thorough, triples) of representatives,
+// as plain siblings, as children of adjacent sibling structures and nested one level deeper.
 func Trees(thorough bool, emit func(*N)) {
 	for _, tag := range Tags {
 		for _, l := range Leaves(tag, thorough) {
@@ -182,6 +183,9 @@ func Trees(thorough bool, emit func(*N)) {
 			emit(st(U, st(T, a), b))
 			emit(st(U, a, st(T, b)))
 			emit(st(U, st(T, a, b)))
+			emit(st(U, st(T, a), st(T, b)))               // adjacent sibling structures
+			emit(st(U, st(T, a), st(T, b), st(T, a)))     // ... three in a row
+			emit(st(U, st(T, st(U, a)), st(T, st(U, b)))) // ... nested
 			if thorough {
 				for _, c := range reps {
 					emit(st(U, a, b, c))
